@@ -188,7 +188,7 @@ def run(ctx):
 
     # frame of the modules under contract (no state kept between calls, arguments left alone): same analysis as C19
     from props import C19 as _C19
-    ctx.guard(_C19.frame_obligations, ctx, py, "C16", {'earth', 'transform'})
+    ctx.guard(_C19.frame_obligations, ctx, py, "C16", {'earth', 'transform', 'util'})
 
 
 # ---------------------------------------------------------------------------------------------
